@@ -563,3 +563,28 @@ Definition doc_case_ok (w : adoc vtx -> rt vtx) (x : adoc vtx * rt vtx) : bool :
 
 Definition morph_case_ok (x : amorph vtx * rt vtx) : bool :=
   match x with (m, r) => rt_eqb (roundtrip_morphology vtx m) r end.
+
+(* ------------------------------------------------------------------ the theorems' hypotheses as executable checks: the cases
+   files evaluate them on every generated input and compare with the harness's own classification *)
+Fixpoint nodup_strb (l : list string) : bool :=
+  match l with
+  | [] => true
+  | x :: t => negb (existsb (String.eqb x) t) && nodup_strb t
+  end.
+
+Definition to_root_domb (c : list Z) (indices : list Z) : bool :=
+  tree_parentb c && forallb (fun i => (0 <=? i) && (i <? zlen c)) indices.
+
+Definition view_domb {V : Type} (m : amorph V) : bool :=
+  no_floating V m && valid_morphology V m && tree_parentb (am_conn m)
+  && match root_index (am_conn m) with Some r => r =? 0 | None => false end.
+
+Definition doc_domb {V : Type} (d : adoc V) : bool :=
+  nodup_strb (top_names V d) && negb (existsb (String.eqb "vertices"%string) (cell_morph_names V 0 (d_cells d))).
+
+Definition to_root_dom_case_ok (x : list Z * list Z * bool) : bool :=
+  match x with (c, is, flag) => Bool.eqb (to_root_domb c is) flag end.
+Definition view_dom_case_ok (x : amorph vtx * bool) : bool :=
+  match x with (m, flag) => Bool.eqb (view_domb m) flag end.
+Definition doc_dom_case_ok (x : adoc vtx * bool) : bool :=
+  match x with (d, flag) => Bool.eqb (doc_domb d) flag end.
